@@ -504,6 +504,22 @@ def override_scripts():
     for first, second in (("derived request (tuple pairs)", "arithmetic on a composition"), ("derived request (list overload, tuple items)", "arithmetic on a composition"), ("arithmetic on a composition", "derived request (tuple pairs)")):
         for cat, u in (("length", "m"), ("length", "cm"), ("depth", "m")):
             scripts.append(setup + [("query", (first, cat, 5.0, u, "cm" if u == "m" else "m", cat)), ("query", (second, cat, 5.0, u, "cm" if u == "m" else "m", cat)), ("query", (first, cat, 5.0, u, u, cat))])
+    # a symbol typed in another case ('KM', 'Cm') is asked about while it is no unit, then registered as a unit of its own
+    # (of the same type with another factor; of another type), then asked about again
+    for sym, own in (("KM", ("AddUnit", ("length", "a unit of its own", "KM", "%f*7.0", "%f/7.0"), {})), ("Cm", ("AddUnit", ("time", "a time unit", "Cm", "%f*7.0", "%f/7.0"), {})), ("M", ("AddUnit", ("length", "mega", "M", "%f/1000000.0", "%f*1000000.0"), {}))):
+        asks = [(k, "length", 5.0, sym, "m", "length") for k in ("Scalar(c,x,u)", "ObtainQuantity", "Quantity(c,u)", "Scalar(x,u)", "ObtainQuantity(u)", "GetValue", "CheckCategoryUnit", "ObtainQuantity(u,c,caption)", "db.Convert", "FindUnitCase",
+                                                                  "derived request (tuple pairs)", "Array.GetValues", "FractionScalar", "mul", "compare")]  # fmt: skip
+        scripts.append(setup + [("query", q) for q in asks] + [("reg", own)] + [("query", q) for q in asks])
+        scripts.append(setup + [("query", q) for q in asks[:3]] + [("reg", own)] + [("query", q) for q in reversed(asks)])
+    # the database is emptied (Clear) and filled again with the same names meaning other things: nothing interned or remembered for
+    # the first filling answers for the second
+    refill = [("reg", ("Clear", (), {})), ("reg", ("AddUnitBase", ("length", "centimetre as the base", "cm"), {})), ("reg", ("AddUnit", ("length", "metre", "m", "%f/100.0", "%f*100.0"), {})),
+              ("reg", ("AddUnit", ("length", "a km of 500 m", "km", "%f/50000.0", "%f*50000.0"), {})), ("reg", ("AddCategory", ("length", "length"), {"min_value": 2.0})), ("reg", ("AddCategory", ("depth", "length"), {"default_unit": "cm"})),
+              ("reg", ("AddUnitBase", ("time", "minute as the base", "min"), {})), ("reg", ("AddUnit", ("time", "second", "s", "%f*60.0", "%f/60.0"), {})), ("reg", ("AddCategory", ("time", "time"), {}))]  # fmt: skip
+    for cat, u, v in (("length", "m", "cm"), ("depth", "m", "km"), ("time", "s", "min"), ("length", "km", "m")):
+        qs = [(k, cat, 5.0, u, v, cat) for k in KINDS if k not in ("pickle",)]
+        scripts.append(setup + [reg("AddCategory", "time", "time")] + [("query", q) for q in qs] + refill + [("query", q) for q in qs])
+        scripts.append(setup + [reg("AddCategory", "time", "time")] + [("query", q) for q in reversed(qs)] + refill[:1] + [("query", q) for q in qs[:6]] + refill[1:] + [("query", q) for q in qs])
     return scripts
 
 
